@@ -41,7 +41,7 @@ def run_poison(ctx, only=None):
     P = U.pp()
     C = _c04()
     rd = reads(P)
-    for dtype in ("float64", "float32"):
+    for dtype in (("float64",) if ctx.quick else ("float64", "float32")):
         # batched probes (3 items: `.expand().contiguous()` copies, they cannot write a shared constant) — every read of every group
         def probes():
             res = {}
@@ -142,6 +142,9 @@ CHEAP = {"SO3": None, "RxSO3": None, "SE3": ("Inv", "Act", "Act4", "Adj", "AdjT"
          "Sim3": ("Inv", "Act", "Act4")}
 
 
+HUGE_QUICK = {"SO3": "Act", "SE3": "Act4", "RxSO3": "Mul", "Sim3": "Inv"}
+
+
 def run_huge(ctx, only=None):
     P = U.pp()
     C = _c04()
@@ -151,7 +154,7 @@ def run_huge(ctx, only=None):
                 continue
             cheap = CHEAP[g] is None or name in CHEAP[g]
             if ctx.quick:
-                sizes = [(1 << 17) + 37] if cheap and (fi + gi) % 3 == 0 else []
+                sizes = [(1 << 17) + 37] if HUGE_QUICK[g] == name else []      # quick: one cheap entry point per group (thorough: all)
             else:
                 sizes = [(1 << 18) + 1, (1 << 18) + 37] + ([(1 << 20) + 1] if cheap else [])
             for n in sizes:
@@ -491,3 +494,111 @@ def replay_case(ctx, c) -> bool:
     for f in ctx.failures:
         print("  fails:", f["what"])
     return len(ctx.failures) + len(ctx.disagreements) == n0
+
+
+# ----------------------------------------------------------------------------- (37) every subset of operands requiring grad
+
+def run_subsets(ctx, only=None):
+    """every binary operator of every group with X only / the second operand only / both requiring grad; constants as plain tensors and
+    as LieTensors without grad; through autograd.grad, backward() and jacrev(argnums=k); also with the differentiable operand being an
+    intermediate result.  A gradient must never be None / zero / different from the one obtained when every operand requires grad."""
+    P = U.pp()
+    C = _c04()
+    for gi, g in enumerate(GROUPS):
+        GT, AT = U.ltype(g), U.ltype(U.ALG[g])
+        for dtype in (("float64",) if ctx.quick else ("float64", "float32")):
+            X, a, p = mixed_inputs(P, g, dtype, 3, gi + 2)
+            Y = mixed_inputs(P, g, dtype, 3, gi + 6)[0]
+            p4 = torch.cat([p, torch.full_like(p[..., :1], 0.5)], -1)
+            # name, kind of the second operand, function(XL, S)
+            ops = [("Mul", "G", Y, lambda XL, S: XL @ S), ("Act", "E", p, lambda XL, S: XL.Act(S)), ("Act4", "E", p4, lambda XL, S: XL.Act(S)),
+                   ("Adj", "A", a, lambda XL, S: XL.Adj(S)), ("AdjT", "A", a, lambda XL, S: XL.AdjT(S)), ("Jinvp", "A", a, lambda XL, S: XL.Jinvp(S)),
+                   ("Retr", "A", a, lambda XL, S: XL.Retr(S)), ("add", "A", a, lambda XL, S: XL + S)]
+            for name, kind, S0, fn in ops:
+                if only is not None and only != (g, name):
+                    continue
+                case = {"stream": "subsets", "type": g, "read": name, "dtype": dtype}
+                try:
+                    def wrapS(t, lie=True):
+                        if kind == "G":
+                            return P.LieTensor(t, ltype=GT)
+                        if kind == "A" and lie:
+                            return P.LieTensor(t, ltype=AT)
+                        return t
+                    # reference: both operands require grad
+                    Xl, Sl = X.clone().requires_grad_(True), S0.clone().requires_grad_(True)
+                    out = T(fn(P.LieTensor(Xl, ltype=GT), wrapS(Sl)))
+                    cot = cot_for(out)
+                    gX, gS = torch.autograd.grad(out, [Xl, Sl], cot)
+                    ctx.note_case(("subsets", g, dtype, name), True)
+                    if not bool((gX != 0).any()) or not bool((gS != 0).any()):
+                        ctx.fail(case, f"subsets: a reference gradient of {name} on {g} is identically zero ({dtype})")
+                        continue
+
+                    def check(lab, got, want, loose=False):
+                        ctx.count("subsets.calls")
+                        if got is None:
+                            ctx.fail(dict(case, pattern=lab), f"subsets: {name} on {g}, {lab}: the gradient is None ({dtype})")
+                        elif not same(T(got).detach(), want) and not H4.rows_close(T(got).detach(), want, dtype, 64) and \
+                                not (loose and close(T(got).detach(), want, 1e-9 if dtype == "float64" else 1e-4)):
+                            z = "identically zero" if not bool((T(got) != 0).any()) else "different"
+                            ctx.fail(dict(case, pattern=lab), f"subsets: {name} on {g}, {lab}: the gradient is {z} compared with the gradient obtained when "
+                                                              f"every operand requires grad ({dtype})")
+                    # X only; the other operand a constant: LieTensor without grad / plain tensor (where the API takes one)
+                    for clab, lie in (("constant LieTensor", True), ("constant plain tensor", False)):
+                        if (kind == "G" or name == "Retr") and not lie:
+                            continue          # the API takes no plain tensor there
+                        for route in ("grad", "backward"):
+                            Xl = X.clone().requires_grad_(True)
+                            o = T(fn(P.LieTensor(Xl, ltype=GT), wrapS(S0.clone(), lie)))
+                            if route == "grad":
+                                got = torch.autograd.grad(o, [Xl], cot, allow_unused=True)[0]
+                            else:
+                                o.backward(cot)
+                                got = Xl.grad
+                            check(f"only X requires grad, second operand a {clab}, {route}", got, gX)
+                    # second operand only; X a constant LieTensor without grad
+                    for slab, lie in (("LieTensor", True), ("plain tensor", False)):
+                        if (kind == "G" or name == "Retr") and not lie:
+                            continue
+                        if kind == "E" and lie:
+                            continue
+                        for route in ("grad", "backward"):
+                            Sl = S0.clone().requires_grad_(True)
+                            o = T(fn(P.LieTensor(X.clone(), ltype=GT), wrapS(Sl, lie)))
+                            if route == "grad":
+                                got = torch.autograd.grad(o, [Sl], cot, allow_unused=True)[0]
+                            else:
+                                o.backward(cot)
+                                got = Sl.grad
+                            check(f"only the second operand ({slab}) requires grad, X a constant LieTensor, {route}", got, gS)
+                    # jacrev(argnums=k) contracted with the cotangent
+                    XL0, SL0 = P.LieTensor(X.clone(), ltype=GT), wrapS(S0.clone())
+                    for k, want in ((0, gX), (1, gS)):
+                        if ctx.quick and (k + len(name) + gi) % 2:
+                            continue
+                        J = T(P.func.jacrev(lambda x_, s_: fn(x_, s_), argnums=k)(XL0, SL0))
+                        nd = out.dim()
+                        got = torch.tensordot(cot, J, dims=nd)
+                        check(f"jacrev(argnums={k})", got, want, loose=True)       # the vmapped route rounds differently
+                    # the differentiable operand is an intermediate result, the other a constant
+                    if kind == "A":
+                        Zl = Y.clone().requires_grad_(True)
+                        o = T(fn(P.LieTensor(X.clone(), ltype=GT), P.LieTensor(Zl, ltype=GT).Log()))
+                        gotZ = torch.autograd.grad(o, [Zl], cot, allow_unused=True)[0]
+                        Zl2, Xl2 = Y.clone().requires_grad_(True), X.clone().requires_grad_(True)
+                        o2 = T(fn(P.LieTensor(Xl2, ltype=GT), P.LieTensor(Zl2, ltype=GT).Log()))
+                        wantZ = torch.autograd.grad(o2, [Zl2, Xl2], cot)[0]
+                        check("second operand = Z.Log() with only Z requiring grad", gotZ, wantZ)
+                    Wl = X.clone().requires_grad_(True)
+                    o = T(fn(P.LieTensor(Wl, ltype=GT).Inv().Inv(), wrapS(S0.clone())))
+                    gotW = torch.autograd.grad(o, [Wl], cot, allow_unused=True)[0]
+                    Wl2, Sl2 = X.clone().requires_grad_(True), S0.clone().requires_grad_(True)
+                    o2 = T(fn(P.LieTensor(Wl2, ltype=GT).Inv().Inv(), wrapS(Sl2)))
+                    wantW = torch.autograd.grad(o2, [Wl2, Sl2], cot)[0]
+                    check("X = W.Inv().Inv() with only W requiring grad", gotW, wantW)
+                except Exception as e:
+                    ctx.fail(case, f"raises: {name} on {g} with a subset of the operands requiring grad ({dtype}) raised {type(e).__name__}: {str(e)[:140]}")
+
+
+STREAMS["subsets"] = run_subsets
